@@ -31,28 +31,14 @@ import (
 	"github.com/aergoio/aergo/v2/zz_verif/vh"
 )
 
-// classes of the defects found at node level (reported to the lead; see notes/C15.md)
-const (
-	dStale   = "C15-stale-own-block-leaves-memory-dirty"
-	dReorgP  = "C15-reorg-rollforward-uses-old-branch-params"
-	dDivZero = "C15-threshold-division-by-zero"
-	dFailedP = "C15-failed-reorg-activates-params-of-failed-block"
-)
+// Known finding found at node level (known_findings.json): the block factory executes on the process-wide rank and
+// parameter table; when its block is not connected nothing is reloaded. Exactly this mechanism and its consequences until
+// the next reload are reported under the class; every other divergence of memory and state is a plain failure.
+// (Three more defects found here were repaired in /repo: reorganisation under the old branch's parameters and activation
+// of a failed block's parameter vote, 01aa461f; division by zero in threshold, f9db0000. They are plain oracles now.)
+const dStale = "C15-stale-own-block-leaves-memory-dirty"
 
-// listed: defect classes the lead has recorded in known_findings.json (reported with FailKnown); the others are only counted.
-var listed = map[string]bool{}
-
-func (f *findings) defect(class, what string, replay interface{}) {
-	if listed[class] {
-		f.known(class, what, replay)
-		return
-	}
-	f.run.Count("defect-candidate:" + class)
-	if !f.seen[class] {
-		f.seen[class] = true
-		f.run.Sample("defect candidate " + class + ": " + what)
-	}
-}
+func (f *findings) defect(class, what string, replay interface{}) { f.known(class, what, replay) }
 
 type ntx struct {
 	acct int
@@ -267,12 +253,8 @@ func (s *nsess) own(txs []ntx) {
 // factoryFailed: generateBlock returned an error (a panic inside GatherTXs is recovered there).
 func (s *nsess) factoryFailed(kind string, txs []ntx, err error) {
 	s.run.Count("node-ev:" + kind + ":factory-error")
-	if strings.Contains(err.Error(), "division by zero") {
-		s.v.taint = dDivZero
-		s.fd.defect(dDivZero, "the block factory dies with '"+err.Error()+"' on an admitted parameter vote / unstake that leaves a top tally below 100 aer; vpr.apply has already run: "+s.memoryReport(), s.v.replay("ev "+kind+" "+opsOf(txs)))
-	} else {
-		s.fail(fmt.Sprintf("the block factory failed: %v", err))
-	}
+	s.v.ops = append(s.v.ops, "ev "+kind+" "+opsOf(txs))
+	s.fail(fmt.Sprintf("the block factory failed on admitted transactions: %v; %s", err, s.memoryReport()))
 	s.ended = true
 }
 
@@ -304,11 +286,12 @@ func (s *nsess) stale(txs []ntx, other []ntx) {
 	s.after()
 	// the other producer's block arrives and is connected; then the own block is offered
 	s.net(other)
+	if s.ended {
+		return
+	}
 	if err := s.n.connectOwn(blk, bs); err == nil {
 		s.v.taint = ""
 		s.fail("the node connected its own block on a parent that is no longer the best block")
-	}
-	if touched {
 		s.ended = true
 	}
 }
@@ -318,10 +301,9 @@ func (s *nsess) producedBy(parent *types.Block, txs []ntx) (*types.Block, []ntx)
 	cand := s.build(parent, txs)
 	blk, _, err := s.n.produce(parent, cand, true)
 	if err != nil {
-		if strings.Contains(err.Error(), "division by zero") {
-			return nil, nil
-		}
-		panic(fmt.Sprintf("coherent producer failed: %v", err))
+		s.fail(fmt.Sprintf("a producer with coherent memory failed on admitted transactions: %v", err))
+		s.ended = true
+		return nil, nil
 	}
 	in, _ := included(blk, cand)
 	return blk, keep(txs, in)
@@ -446,14 +428,11 @@ func (s *nsess) reorg(k int, blocks [][]ntx, bad int) {
 		}
 		if bad < 0 || (first >= 0 && first < bad) {
 			// a valid block of the branch failed
-			why := fmt.Sprintf("the node refused to reorganise to a longer valid branch (fork point %d blocks below its tip)", k+1)
-			switch {
-			case s.v.taint != "":
+			why := fmt.Sprintf("the node refused to reorganise to a longer valid branch (fork point %d blocks below its tip); %s", k+1, s.memoryReport())
+			if s.v.taint != "" {
 				s.fd.defect(s.v.taint, why, s.v.replay("ev reorg "+strings.Join(bl, " / ")))
-			case s.paramsDiffer(s.main[rootIdx], oldBest):
-				s.v.taint = dReorgP
-				s.fd.defect(dReorgP, why+": during the roll-forward its in-memory parameters are still those of the old branch; "+s.memoryReport(), s.v.replay("ev reorg "+strings.Join(bl, " / ")))
-			default:
+			} else {
+				s.v.ops = append(s.v.ops, "ev reorg "+strings.Join(bl, " / "))
 				s.fail(why)
 			}
 			s.run.Count("node-ev:reorg:valid-branch-refused")
@@ -461,37 +440,10 @@ func (s *nsess) reorg(k int, blocks [][]ntx, bad int) {
 			return
 		}
 		failAt = fmt.Sprint(bad)
-		if bad == 0 && k == 0 {
-			for _, t := range incs[0] {
-				if strings.HasPrefix(t.op, "votedao") {
-					// a pending parameter of the failed block may get activated (defect 4): the model predicts it
-					s.run.Count("node-ev:reorg:first-block-fails-with-parameter-vote")
-				}
-			}
-		}
 	}
 	s.emit(fmt.Sprintf("ev reorg %d %s %s", k, failAt, strings.Join(bl, " / ")), res, true)
 	s.run.Count("node-ev:reorg:" + res)
-	s.afterReorg(bad == 0 && k == 0)
-}
-
-// afterReorg: as after(), but the incoherence of the parameters that a failed first block of the new branch leaves behind
-// (old branch one block long) is the defect dFailedP.
-func (s *nsess) afterReorg(shape bool) {
-	if ok, why := s.n.observe().coherent(); !ok && shape && s.v.taint == "" && strings.Contains(why, "system parameters") {
-		s.v.taint = dFailedP
-		s.fd.defect(dFailedP, "after a failed reorganisation: "+why, s.v.replay())
-	}
 	s.after()
-	if s.v.taint != "" {
-		s.ended = true
-	}
-}
-
-func (s *nsess) paramsDiffer(a, b *types.Block) bool {
-	pa := showParams(system.VerifC15ParamsLoad(s.n.sysStateAt(a.GetHeader().GetBlocksRootHash())))
-	pb := showParams(system.VerifC15ParamsLoad(s.n.sysStateAt(b.GetHeader().GetBlocksRootHash())))
-	return pa != pb
 }
 
 func (s *nsess) restart() {
@@ -669,23 +621,22 @@ func nodeScripted(run *vh.Run, fd *findings) {
 		s.reorg(1, [][]ntx{{s.txStake(4, s.sh(1, 0), coins(10000))}, {s.txVoteBP(4, s.sh(1, 1), [][]byte{c1})}, nil}, -1)
 		s.close()
 	}
-	// D1: an own block that has become stale (defect candidate)
+	// K5: an own block that has become stale (known finding C15-stale-own-block-leaves-memory-dirty)
 	{
 		s := newNSess(run, fd, run.Rng.Fork(), "node:stale-own-block")
 		s.own([]ntx{s.txStake(0, s.h(), coins(90000)), s.txVoteBP(0, s.h(), [][]byte{c1})})
 		s.stale([]ntx{s.txStake(1, s.h(), coins(20000)), s.txVoteBP(1, s.h(), [][]byte{c1}), s.txVoteDAO(0, s.h(), "NAMEPRICE", coins(3).String())}, nil)
 		s.close()
 	}
-	// D1b: ... and the next valid block of another producer that touches the same rank bucket is refused
+	// K5b: ... and the next valid block of another producer that touches the same rank bucket is refused
 	{
 		s := newNSess(run, fd, run.Rng.Fork(), "node:stale-own-block-then-valid-block-refused")
 		s.own([]ntx{s.txStake(0, s.h(), coins(90000)), s.txVoteBP(0, s.h(), [][]byte{c1})})
 		s.stale([]ntx{s.txStake(1, s.h(), coins(20000)), s.txVoteBP(1, s.h(), [][]byte{c1})}, nil)
-		s.ended = false
 		s.net([]ntx{s.txStake(1, s.h(), coins(20000)), s.txVoteBP(1, s.h(), [][]byte{c1})})
 		s.close()
 	}
-	// D2: reorganisation away from a branch that changed a parameter (defect candidate)
+	// R2: reorganisation away from a branch that changed a parameter (regression: repaired by 01aa461f)
 	{
 		s := newNSess(run, fd, run.Rng.Fork(), "node:reorg-across-parameter-change")
 		s.own([]ntx{s.txStake(0, s.h(), coins(90000)), s.txVoteDAO(0, s.h(), "NAMEPRICE", coins(3).String())})
@@ -693,14 +644,15 @@ func nodeScripted(run *vh.Run, fd *findings) {
 		s.reorg(1, [][]ntx{{s.txNameCreate(1, "name11112222", coins(1))}, nil, nil}, -1)
 		s.close()
 	}
-	// D3: division by zero in threshold inside the block factory (defect candidate)
+	// R3: a parameter vote with a tally below 100 aer (regression: division by zero in threshold, repaired by f9db0000)
 	{
 		s := newNSess(run, fd, run.Rng.Fork(), "node:threshold-division-by-zero")
 		s.own([]ntx{s.txStake(0, s.h(), coins(10000)), s.txVoteDAO(0, s.h(), "STAKINGMIN", "7")})
 		s.own([]ntx{s.txStake(1, s.h(), big.NewInt(50)), s.txVoteDAO(1, s.h(), "BPCOUNT", "3")})
 		s.close()
 	}
-	// D4: a failed reorganisation whose first new block carries a winning parameter vote, old branch one block long
+	// R4: a failed reorganisation whose first new block carries a winning parameter vote, old branch one block long
+	// (regression: the vote of the failed block was activated, repaired by 01aa461f)
 	{
 		s := newNSess(run, fd, run.Rng.Fork(), "node:failed-reorg-activates-parameter")
 		s.own([]ntx{s.txStake(0, s.h(), coins(90000)), s.txVoteBP(0, s.h(), [][]byte{c1})})
